@@ -2,7 +2,7 @@ import QV.Model.Compiler
 import QV.Proofs.Circuit
 import QV.Proofs.Bennett
 import QV.Props.C02
--- PORT-PENDING import QV.Proofs.CompilerClean   (not yet ported to the repaired compiler model, docs/notes/PORT-PENDING.md)
+import QV.Proofs.CompilerClean
 import QV.Model.CompilerClass
 /-!
 # C03 – Compiled circuits are clean: inputs preserved, scratch qubits back to zero
@@ -18,8 +18,8 @@ bit names a qubit of the circuit, so `outs` has one entry per return bit),
 `compile_args_not_scratch` (no argument qubit is in the ancilla / free / marked / kept set) and
 `compile_replay_restores` (reverse replay of any compiled gate list restores every qubit).
 The model follows the compiler with the repairs `docs/fixes/CC-*.diff`.  The semantic theorem
-`C03_fragment_partial` (proved for the model of the unrepaired compiler) is parked in a
-`PORT-PENDING` block until `QV/Proofs/CompilerClean.lean` is ported (`docs/notes/PORT-PENDING.md`).
+`C03_fragment_partial` is proved for that model (`QV/Proofs/CompilerClean.lean`); since the repaired
+`compile_or` applies no `X` gate to an argument qubit, its class no longer restricts the arity of `Or`.
 -/
 namespace QV.C03
 open QV QV.Compiler
@@ -177,15 +177,14 @@ theorem mem_rets_of_class {r : String} {rets : List String} (hne : rets.isEmpty 
     subst this
     exact List.mem_cons_self
 
-/- PORT-PENDING theorem C03_fragment_partial (needs QV.Proofs.CompilerClean (CompilerSem, CompilerReplay, CompilerBennett); text unchanged)
-/-- **C03 on the tree-like single-definition fragment without De Morgan `Or`** (`inCleanFragment`:
-`inFragment`, at least one requested return name, every `Or` with at most two arguments), with
-`uncompute = true`: every successful run of the compiler model – for every admissible sequence of
-ancilla choices – gives a `Clean` circuit: on every classical input every argument qubit is
-unchanged and every qubit other than the qubit of the return name is back to zero.  Partial with
-respect to C03: one definition only, no repeated compound sub-expression, no constant, and no `Or`
-with three or more arguments – for the last restriction the statement is *false* on `inFragment`
-(`C03_fragment_demorgan_witness`). -/
+/-- **C03 on the tree-like single-definition fragment** (`inCleanFragment`: `inFragment` and at least
+one requested return name; `Or`s of any arity), with `uncompute = true`: every successful run of the
+compiler model – for every admissible sequence of ancilla choices – gives a `Clean` circuit: on every
+classical input every argument qubit is unchanged and every qubit other than the qubit of the return
+name is back to zero.  Partial with respect to C03: one definition only, no repeated compound
+sub-expression, no constant.  (For the unrepaired compiler the class had to exclude every `Or` with
+three or more arguments, `C03_fragment_demorgan_witness`; the repaired `compile_or` folds binary ors
+into new marked ancillas, which the inline `uncompute` replays like every other ancilla.) -/
 theorem C03_fragment_partial (inputs : List String) (defs : List (String × BExp)) (rets : List String)
     (choices : List Nat) (s : CState)
     (hf : inCleanFragment inputs defs rets = true)
@@ -195,10 +194,10 @@ theorem C03_fragment_partial (inputs : List String) (defs : List (String × BExp
   | [(r, e)], hf, h =>
     simp only [inCleanFragment, inFragment, Bool.and_eq_true, decide_eq_true_eq, List.all_eq_true, bne_iff_ne,
       ne_eq, Bool.not_eq_true', beq_iff_eq] at hf
-    obtain ⟨⟨⟨⟨⟨⟨hnd, hfr⟩, hov⟩, htl⟩, hrets⟩, hne⟩, hso⟩ := hf
+    obtain ⟨⟨⟨⟨⟨hnd, hfr⟩, hov⟩, htl⟩, hrets⟩, hne⟩ := hf
     have hr : r ∈ rets := mem_rets_of_class hne hrets
     intro x hx q hq
-    obtain ⟨q0, hq0, hcl, _, _, htg⟩ := compile_single_clean h rfl hr hnd (fun n hn => hfr n hn) hov htl hso x hx
+    obtain ⟨q0, hq0, hcl, _, _, htg⟩ := compile_single_clean h rfl hr hnd (fun n hn => hfr n hn) hov htl x hx
     dsimp only
     constructor
     · intro hlt
@@ -214,7 +213,6 @@ theorem C03_fragment_partial (inputs : List String) (defs : List (String × BExp
       rw [hcl q hne', initState_getD]
       have : x[q]? = none := by simp; omega
       simp [List.getD_eq_getElem?_getD, this]
-PORT-PENDING end -/
 
 /-- an instance of the class of `C03_fragment_partial` (nested `And` / `Xor` / `Not`, binary `Or`) -/
 example : inCleanFragment ["a", "b", "c"]
@@ -222,16 +220,22 @@ example : inCleanFragment ["a", "b", "c"]
                     .sym "b"])] ["_ret"] = true := by
   decide +kernel
 
+/-- another instance: an `Or` with four arguments, three of them bare argument symbols (or-chain) -/
+example : inCleanFragment ["a", "b", "c", "d"]
+    [("_ret", .xor [.or [.sym "a", .sym "b", .not (.sym "c"), .sym "d"], .and [.sym "a", .sym "d"]])] ["_ret"] = true := by
+  decide +kernel
+
 /-- (about the **unrepaired** compiler; the repaired `compile_or` folds binary ors and applies no `X` to an
-argument qubit.)  The excluded part of `inFragment`: `a & (a | b | c)` is in the class of `C02_fragment_partial` but its
-circuit was **not** clean.  The gate list is the one the unrepaired compiler and its model emitted with
+argument qubit, and `C03_fragment_partial` now covers this instance.)  The part of `inFragment` the class used
+to exclude (`smallOr`): `a & (a | b | c)` is in the class of `C02_fragment_partial` but its circuit was **not** clean.  The gate list is the one the unrepaired compiler and its model emitted with
 ancillas 3, 4 (`anc_0` = the De Morgan `Or`, qubit 4 = `_ret`): `uncompute` replays `X 3` and the `MCX`
 into qubit 3 without the `X` gates on the argument qubits, so on input `000` qubit 3 ends as 1
 (finding `C03-uncompute-stale`, repaired).  (Kernel evaluation of `compile` itself is stuck on `List.mergeSort`,
 so the list is spelled out; `./check C03` compares model and compiler gate lists on such instances.) -/
 theorem C03_fragment_demorgan_witness :
     inFragment ["a", "b", "c"] [("_ret", .and [.sym "a", .or [.sym "a", .sym "b", .sym "c"]])] ["_ret"] = true ∧
-    inCleanFragment ["a", "b", "c"] [("_ret", .and [.sym "a", .or [.sym "a", .sym "b", .sym "c"]])] ["_ret"] = false ∧
+    smallOr (.and [.sym "a", .or [.sym "a", .sym "b", .sym "c"]]) = false ∧
+    inCleanFragment ["a", "b", "c"] [("_ret", .and [.sym "a", .or [.sym "a", .sym "b", .sym "c"]])] ["_ret"] = true ∧
     validateClean [{ cls := .X, wires := [0] }, { cls := .X, wires := [1] }, { cls := .X, wires := [2] },
       { cls := .MCX 3, wires := [0, 1, 2, 3] }, { cls := .X, wires := [0] }, { cls := .X, wires := [1] },
       { cls := .X, wires := [2] }, { cls := .X, wires := [3] }, { cls := .MCX 2, wires := [0, 3, 4] },
